@@ -132,7 +132,12 @@ theorem parseNode_element_N (e : BEnv) (Γ : Ctx) (pcfg : ParserConfig) (m : Xml
     · intro P ws var y hk hpop hfr
       rcases hk with hf | ⟨hwf, q', t, tl, a', kids', rfl⟩
       · simp [bindObject_N hf hc ws P y hpop hfr, bind, Except.bind, pure, Except.pure]
-      · simp [bindObject_W hwf ws P _ _ _ _ _ hpop, bind, Except.bind, pure, Except.pure]
+      · have hfw : var.listElement = true ∨ P.has var.name = false := by
+          rcases hfr with h | h | h
+          · exact Or.inl h
+          · rw [hwf.init] at h; cases h
+          · exact Or.inr h
+        simp [bindObject_W hwf ws P _ _ _ _ _ hpop hfw, bind, Except.bind, pure, Except.pure]
   · have hfw : m.findAnyWildcard = some wv := by simp [XmlMeta.findAnyWildcard, h]
     subst ht
     simp only [hK, bind, Except.bind, hcond, if_true, hA, hfw, hm, Bool.false_eq_true, if_false]
@@ -141,7 +146,12 @@ theorem parseNode_element_N (e : BEnv) (Γ : Ctx) (pcfg : ParserConfig) (m : Xml
     · intro P ws var y hk hpop hfr
       rcases hk with hf | ⟨hwf, q', t, tl, a', kids', rfl⟩
       · simp [bindObject_N hf hc ws P y hpop hfr, bind, Except.bind, pure, Except.pure]
-      · simp [bindObject_W hwf ws P _ _ _ _ _ hpop, bind, Except.bind, pure, Except.pure]
+      · have hfw : var.listElement = true ∨ P.has var.name = false := by
+          rcases hfr with h | h | h
+          · exact Or.inl h
+          · rw [hwf.init] at h; cases h
+          · exact Or.inr h
+        simp [bindObject_W hwf ws P _ _ _ _ _ hpop hfw, bind, Except.bind, pure, Except.pure]
 
 
 /-! ### one element var: everything the induction step needs -/
@@ -756,60 +766,110 @@ theorem items_nones {e : BEnv} {Γ : Ctx} {m : XmlMeta} {ci : ClassInfo} {var : 
   | derived q v t => simp [itemsN] at hy
   | attrs a => simp [itemsN] at hy
 
-/-! ### the list wildcard -/
+/-! ### the wildcard (a list, or a single generic element) -/
 
-theorem wild_items {e : BEnv} {Γ : Ctx} {m : XmlMeta} {ci : ClassInfo} {var : XmlVar}
+theorem wild_cases {e : BEnv} {Γ : Ctx} {m : XmlMeta} {ci : ClassInfo} {var : XmlVar}
     (hw : WildFactsN m var) {rc : ClassId → Option QN → Val → Bool} {x : Val} {inh : Bool}
     (hx : FN.elemValOK inh e Γ m ci var rc x = true) :
-    ∃ xs, x = .list xs ∧ itemsN var x = xs ∧ ∀ y ∈ xs, wildItemOK e Γ m var y = true := by
+    (var.listElement = true ∧ ∃ xs, x = .list xs ∧ ∀ y ∈ xs, wildItemOK e Γ m var y = true) ∨
+    (var.listElement = false ∧ x = .none ∧ fdNone ci var.name = true) ∨
+    (var.listElement = false ∧ wildItemOK e Γ m var x = true) := by
   unfold FN.elemValOK at hx
   rw [Bool.and_eq_true] at hx
   replace hx := hx.2
   have hiw : var.isWildcard = true := by simp [VarCore.isWildcard, hw.isWild]
   simp only [hiw, if_true] at hx
-  cases x <;> simp at hx
-  rename_i xs
-  exact ⟨xs, rfl, by simp [itemsN, hw.tokens], hx⟩
+  cases hl : var.listElement with
+  | true =>
+    simp only [hl, if_true] at hx
+    cases x <;> simp at hx
+    rename_i xs
+    exact Or.inl ⟨rfl, xs, rfl, hx⟩
+  | false =>
+    simp only [hl, Bool.false_eq_true, if_false] at hx
+    cases x with
+    | none => exact Or.inr (Or.inl ⟨rfl, rfl, by simpa using hx⟩)
+    | _ => exact Or.inr (Or.inr ⟨rfl, by simpa using hx⟩)
 
-/-- the list wildcard of a class: its generic items -/
+theorem wild_items_ok {e : BEnv} {Γ : Ctx} {m : XmlMeta} {ci : ClassInfo} {var : XmlVar}
+    (hw : WildFactsN m var) {rc : ClassId → Option QN → Val → Bool} {x : Val} {inh : Bool}
+    (hx : FN.elemValOK inh e Γ m ci var rc x = true) :
+    ∀ y ∈ itemsN var x, wildItemOK e Γ m var y = true := by
+  intro y hy
+  rcases wild_cases hw hx with ⟨_, xs, rfl, hall⟩ | ⟨_, rfl, _⟩ | ⟨_, hok⟩
+  · have : itemsN var (.list xs) = xs := by simp [itemsN, hw.tokens]
+    rw [this] at hy
+    exact hall y hy
+  · simp [itemsN, hw.nillable] at hy
+  · obtain ⟨q, t, a, kids, rfl, _⟩ := wildItemOK_any hok
+    simp only [itemsN, List.mem_singleton] at hy
+    rw [hy]; exact hok
+
+/-- one generic item: generator, writer, parser -/
+theorem wild_item (e : BEnv) (Γ : Ctx) (cfg : SerCfg) (pcfg : ParserConfig) (M : NsMap)
+    (ns : Option Str) (rec : XmlVar → Val → Tree) {m : XmlMeta} {var : XmlVar}
+    (hw : WildFactsN m var) {y : Val} (hok : wildItemOK e Γ m var y = true) (f' : Nat) (hf : y.size ≤ f') :
+    (∃ evs, itemGen e Γ cfg var ns (f' + 1) y = .ok evs ∧
+      SubW M (isDatatype Γ) evs (treeSax (itemTreeNN M rec var y)) ∧
+      (TypesGood e M evs → ItemK e Γ pcfg M m var y (itemTreeNN M rec var y))) ∧
+    plain M (itemTreeNN M rec var y) = true := by
+  obtain ⟨q, t, a, kids, rfl, _, _, _, _, _, hcanon⟩ := wildItemOK_any hok
+  have htree : itemTreeNN M rec var (.any (some q) (some t) none a kids) =
+      treeOfAny M (.any (some q) (some t) none a kids) := rfl
+  rw [htree]
+  refine ⟨⟨_, ?_, SubW_treeOfAny e Γ M hcanon, fun _ => itemK_wild e Γ pcfg M hw hok⟩,
+    plain_treeOfAny e Γ M _ hcanon⟩
+  simp only [itemGen, hw.tokens, Bool.false_eq_true, if_false]
+  rw [genValue_any_wild e Γ cfg hw.isWild hw.mixed hw.tokens]
+  exact genAnyType_canon e Γ cfg M var hcanon f' hf ns
+
+/-- the wildcard of a class: its generic items -/
 theorem wild_bundle (e : BEnv) (Γ : Ctx) (cfg : SerCfg) (pcfg : ParserConfig) (M : NsMap)
     (ns : Option Str) (rec : XmlVar → Val → Tree) {m : XmlMeta} {ci : ClassInfo} {var : XmlVar}
     (hw : WildFactsN m var) {rc : ClassId → Option QN → Val → Bool} {x : Val} {inh : Bool}
     (hx : FN.elemValOK inh e Γ m ci var rc x = true) (f : Nat) (hfuel : 4 * x.size + 2 ≤ f) :
     VarBundleG e Γ cfg pcfg M m ci ns rec f var x := by
-  obtain ⟨xs, rfl, hitems, hall⟩ := wild_items hw hx
-  have hany := fun y hy => wildItemOK_any (hall y hy)
-  refine ⟨Shape.list xs hw.tokens hw.list ?_, ?_, fun h => by simp [hw.list] at h, ?_⟩
-  · intro y hy
-    obtain ⟨q, t, a, kids, rfl, _⟩ := hany y hy
-    rfl
-  · rw [hitems]
+  rcases wild_cases hw hx with ⟨hl, xs, rfl, hall⟩ | ⟨hl, rfl, hfd⟩ | ⟨hl, hok⟩
+  · have hitems : itemsN var (.list xs) = xs := by simp [itemsN, hw.tokens]
+    have hd : var.default = .listFactory := by have := hw.default; simpa [hl] using this
+    refine ⟨Shape.list xs hw.tokens hl ?_, ?_, fun h => by simp [hl] at h, ?_⟩
+    · intro y hy
+      obtain ⟨q, t, a, kids, rfl, _⟩ := wildItemOK_any (hall y hy)
+      rfl
+    · rw [hitems]
+      intro y hy fI hF
+      have hsz := size_le_sizeList hy
+      simp only [Val.size] at hfuel
+      obtain ⟨f', rfl⟩ : ∃ f', fI = f' + 1 := ⟨fI - 1, by rcases hF with h | h <;> omega⟩
+      exact wild_item e Γ cfg pcfg M ns rec hw (hall y hy) f' (by rcases hF with h | h <;> omega)
+    · rw [hitems]
+      cases xs with
+      | nil => exact Or.inr ⟨by simp [finalParam, hl, hw.init], Or.inr (Or.inl ⟨rfl, hd⟩)⟩
+      | cons a l => exact Or.inl (by simp [finalParam, hl, hw.init])
+  · have hitems : itemsN var .none = [] := by simp [itemsN, hw.nillable]
+    exact ⟨Shape.none hw.tokens hl, by simp [hitems], fun _ => by simp [hitems],
+      Or.inr ⟨by simp [hitems, finalParam, hl, hw.init], Or.inl ⟨rfl, hfd⟩⟩⟩
+  · obtain ⟨q, t, a, kids, rfl, _⟩ := wildItemOK_any hok
+    have hitems : itemsN var (.any (some q) (some t) none a kids) = [.any (some q) (some t) none a kids] := rfl
+    refine ⟨Shape.any _ _ _ _ _ hw.tokens hl, ?_, fun _ => by simp [hitems],
+      Or.inl (by simp [hitems, finalParam, hl, hw.init])⟩
+    rw [hitems]
     intro y hy fI hF
-    have hsz := size_le_sizeList hy
-    simp only [Val.size] at hfuel
-    obtain ⟨q, t, a, kids, rfl, _, _, _, _, _, hcanon⟩ := hany y hy
-    obtain ⟨f', rfl⟩ : ∃ f', fI = f' + 1 := ⟨fI - 1, by rcases hF with h | h <;> omega⟩
-    have htree : itemTreeNN M rec var (.any (some q) (some t) none a kids) =
-        treeOfAny M (.any (some q) (some t) none a kids) := rfl
-    rw [htree]
-    refine ⟨⟨_, ?_, SubW_treeOfAny e Γ M hcanon, fun _ => itemK_wild e Γ pcfg M hw (hall _ hy)⟩,
-      plain_treeOfAny e Γ M _ hcanon⟩
-    simp only [itemGen, hw.tokens, Bool.false_eq_true, if_false]
-    rw [genValue_any_wild e Γ cfg hw.isWild hw.mixed hw.tokens]
-    exact genAnyType_canon e Γ cfg M var hcanon f' (by rcases hF with h | h <;> omega) ns
-  · rw [hitems]
-    cases xs with
-    | nil => exact Or.inr ⟨by simp [finalParam, hw.list, hw.init], Or.inr (Or.inl ⟨rfl, hw.default⟩)⟩
-    | cons a l => exact Or.inl (by simp [finalParam, hw.list, hw.init])
+    simp only [List.mem_singleton] at hy
+    subst hy
+    have hfI : fI = f + 1 := by
+      rcases hF with h | h
+      · exact h
+      · simp [Val.isArray] at h
+    subst hfI
+    exact wild_item e Γ cfg pcfg M ns rec hw hok f (by omega)
 
 theorem items_nones_wild {e : BEnv} {Γ : Ctx} {m : XmlMeta} {ci : ClassInfo} {var : XmlVar}
     (hw : WildFactsN m var) {rc : ClassId → Option QN → Val → Bool} {x : Val} {inh : Bool}
     (hx : FN.elemValOK inh e Γ m ci var rc x = true) :
     ∀ y ∈ itemsN var x, y = .none → var.nillable = true := by
-  obtain ⟨xs, rfl, hitems, hall⟩ := wild_items hw hx
-  rw [hitems]
   intro y hy hn
   subst hn
-  simpa [wildItemOK] using hall _ hy
+  simpa [wildItemOK] using wild_items_ok hw hx _ hy
 
 end Proofs.C01
